@@ -878,9 +878,14 @@ def analyzer_digest(an):
         if v is not None:
             _add(h, np.asarray(v))
     _add(h, an.mol.atom_coords())
-    h.update(repr(an.mol._basis).encode() if False else str(an.mol.nao_nr()).encode())
-    _add(h, an.mol._env)
-    _add(h, an.mol._bas)
+    h.update(str(an.mol.nao_nr()).encode())
+    # NOT mol._env/_bas: their internal layout follows the iteration order of a set of element
+    # symbols inside PySCF (hash-seed dependent) while the molecule they describe is the same.
+    # What must agree is what the molecule evaluates to: labels and AO values on fixed points.
+    h.update("|".join(an.mol.ao_labels()).encode())
+    pts = np.random.default_rng(5).normal(size=(9, 3))
+    _add(h, an.mol.eval_gto("GTOval_sph", pts))
+    h.update(repr(sorted((k, repr(v)) for k, v in an.mol._basis.items())).encode())
     h.update(str((int(an.mol.spin), int(an.mol.charge))).encode())
     for k in sorted(an.keys()):
         h.update(k.encode())
